@@ -350,3 +350,8 @@ def run(ctx):
     ctx.alias = {"C01.f": "C03.i"}
     ctx.run_clause("C03.i", C01.c01f)
     ctx.alias = {}
+    # a missing observation means "recompute" (D7): whoever rewrites the observation table while verifying a node clean must
+    # keep every callee's entry, else the next verification re-executes a query whose inputs did not change (C01.s as C03.k)
+    ctx.alias = {"C01.s": "C03.k"}
+    ctx.run_clause("C03.k", C01.c01s)
+    ctx.alias = {}
